@@ -1011,3 +1011,42 @@ func NilCmpEdges(fn *ssa.Function, match func(ssa.Value) bool) (out []struct{ If
 	}
 	return
 }
+
+// EqEdge is an `if` deciding X == Y, whichever way it was written (==, !=, negated, either operand order):
+// Eq is the block entered when the operands are equal, Ne the other one.
+type EqEdge struct {
+	If     *ssa.If
+	X, Y   ssa.Value
+	Eq, Ne *ssa.BasicBlock
+}
+
+// EqEdges lists the equality tests of fn; every test is reported in both operand orders so that callers
+// can match `X` against the interesting side only.
+func EqEdges(fn *ssa.Function) []EqEdge {
+	var out []EqEdge
+	for _, b := range fn.Blocks {
+		if len(b.Instrs) == 0 {
+			continue
+		}
+		ifi, ok := b.Instrs[len(b.Instrs)-1].(*ssa.If)
+		if !ok {
+			continue
+		}
+		cv, neg := stripNot(ifi.Cond)
+		bo, ok := cv.(*ssa.BinOp)
+		if !ok || (bo.Op != token.EQL && bo.Op != token.NEQ) {
+			continue
+		}
+		eq := bo.Op == token.EQL
+		if neg {
+			eq = !eq
+		}
+		e := EqEdge{If: ifi, X: bo.X, Y: bo.Y, Eq: b.Succs[0], Ne: b.Succs[1]}
+		if !eq {
+			e.Eq, e.Ne = e.Ne, e.Eq
+		}
+		out = append(out, e)
+		out = append(out, EqEdge{If: ifi, X: bo.Y, Y: bo.X, Eq: e.Eq, Ne: e.Ne})
+	}
+	return out
+}
